@@ -29,15 +29,45 @@ async fn sse() -> DataStream {
     })
 }
 
+/// the same schedule as a `Stream` of its own (for `DataStream::from` and `Response::with_stream`): per step its messages, then Pending once or the end
+struct Sched(std::collections::VecDeque<(std::collections::VecDeque<String>, bool)>);
+impl Sched { fn current() -> Self { Sched(SCHED.lock().unwrap().iter().map(|(p, r)| (p.iter().cloned().collect(), *r)).collect()) } }
+impl ohkami::util::Stream for Sched {
+    type Item = String;
+    fn poll_next(mut self: std::pin::Pin<&mut Self>, cx: &mut std::task::Context<'_>) -> std::task::Poll<Option<String>> {
+        let Some((pushes, ready)) = self.0.front_mut() else { return std::task::Poll::Ready(None) };
+        if let Some(m) = pushes.pop_front() { return std::task::Poll::Ready(Some(m)) }
+        if *ready { return std::task::Poll::Ready(None) }
+        self.0.pop_front();
+        cx.waker().wake_by_ref();
+        std::task::Poll::Pending
+    }
+}
+async fn sse_from() -> DataStream { DataStream::from(Sched::current()) }
+async fn sse_with_stream() -> Response { Response::OK().with_stream(Sched::current()) }
+/// `DataStream<&'static str>` through the handle
+async fn sse_str() -> DataStream<&'static str> {
+    DataStream::new(|mut s| async move {
+        let sched = SCHED.lock().unwrap().clone();
+        for (pushes, ready) in sched {
+            for m in pushes { s.send(leak_str(m.into_bytes())); }
+            if ready { return }
+            YieldOnce(false).await;
+        }
+    })
+}
+
 pub fn run_case(c: &Value) -> Value {
     pin_clock(PINNED_CLOCK);
     *SCHED.lock().unwrap() = c["sched"].as_array().unwrap().iter().map(|s| (
         s["pushes"].as_array().unwrap().iter().map(|p| string(unhex(p.as_str().unwrap()))).collect(), s["ready"].as_bool().unwrap())).collect();
-    let t = Ohkami::new(("/sse".GET(sse),)).test();
+    let t = Ohkami::new(("/sse".GET(sse), "/from".GET(sse_from), "/with_stream".GET(sse_with_stream), "/str".GET(sse_str))).test();
+    let target = match c["entry"].as_str().unwrap_or("new") { "new" => "/sse", "from" => "/from", "with_stream" => "/with_stream", "str" => "/str", o => panic!("harness: entry {o}") };
+    let raw = format!("GET {target} HTTP/1.1\r\n\r\n");
     let wire = rt().block_on(async {
         let mut req = Request::__verif_init();
         let mut req = std::pin::Pin::new(&mut req);
-        let mut conn: &[u8] = b"GET /sse HTTP/1.1\r\n\r\n";
+        let mut conn: &[u8] = raw.as_bytes();
         req.as_mut().__verif_read(&mut conn).await.ok();
         let res = t.__verif_handle(req.get_mut()).await;
         let mut wire: Vec<u8> = Vec::new();
